@@ -5,6 +5,7 @@ package main
 
 import (
 	"fmt"
+	"sort"
 	"strings"
 
 	"foxverif/hx"
@@ -73,8 +74,58 @@ func main() {
 			st.Count("set:fanout")
 			npat = 0
 		}
+		if si%12 == 9 {
+			// grown stream: a family sharing a prefix with TWO infix catch-alls (one node key holds both, so its
+			// precomputed chain of sub-nodes has two levels), registered one by one, then further writes
+			// (Handle / Update / Delete) below that node: every later write walks through, and re-creates, the
+			// node, and routing must follow the new children
+			base := hx.Pick(rnd, []string{"/*{x}/b/*{y}/c/", "/a/*{x}/b/*{y}/c", "/p/*{x}/q/*{y}/", "h.com/*{x}/b/*{y}/c/", "/{u}/*{x}/b/*{y}/"})
+			sufs := []string{"d", "e", "f", "d/g", "{p}", "e/{q}/h", "*{z}", "d/{r}"}
+			for i := len(sufs) - 1; i > 0; i-- {
+				j := rnd.Intn(i + 1)
+				sufs[i], sufs[j] = sufs[j], sufs[i]
+			}
+			k := rnd.Range(3, 6)
+			reg := map[string]bool{}
+			for _, sf := range sufs[:k] {
+				if _, err := f.Handle(methods[0], base+sf, rt.Rec); err == nil {
+					reg[base+sf] = true
+				}
+			}
+			for j := rnd.Range(1, 4); j > 0; j-- {
+				var cur []string
+				for p := range reg {
+					cur = append(cur, p)
+				}
+				sort.Strings(cur)
+				switch rnd.Intn(3) {
+				case 0:
+					if len(cur) > 0 {
+						f.Update(methods[0], hx.Pick(rnd, cur), rt.Rec)
+					}
+				case 1:
+					if len(cur) > 2 {
+						p := hx.Pick(rnd, cur)
+						if _, err := f.Delete(methods[0], p); err == nil {
+							delete(reg, p)
+						}
+					}
+				default:
+					p := base + hx.Pick(rnd, sufs[k:])
+					if _, err := f.Handle(methods[0], p, rt.Rec); err == nil {
+						reg[p] = true
+					}
+				}
+			}
+			for p := range reg {
+				pats = append(pats, p)
+			}
+			sort.Strings(pats)
+			st.Count("set:grown-double-infix")
+			npat = 0
+		}
 		var targets []string
-		if si%3 == 1 {
+		if si%3 == 1 && si%12 != 9 {
 			// overlap stream: nested backtracking with parameters captured before each backtrack
 			ov, target := rt.OverlapSet(rnd, rnd.Range(4, 12))
 			hostMode := prop == "C09" || rnd.Pct(35)
